@@ -20,6 +20,11 @@ import (
 
 func genFinalOpts(r *RNG) wOpts {
 	o := genWOpts(r)
+	o.v1 = r.Chance(15)
+	if r.Chance(25) {
+		// MaxIndexCidSize around the CID lengths in play (34 = CIDv0, 36 = CIDv1 sha2-256, 37/38 = longer codec varints)
+		o.maxCid = uint64(pick(r, []int{33, 34, 35, 36, 37, 38, 40, 68}))
+	}
 	if r.Chance(4) {
 		o.codec = uint64(pick(r, []int{0x55, 0x0402, 0x0300})) // not an index codec: Finalize must fail (0 would mean "default")
 	}
@@ -76,7 +81,7 @@ func init() {
 		var finishedOpts []wOpts
 
 		// ---- 1. library sessions
-		nSess := 70 * c.Scale
+		nSess := 300 * c.Scale
 		for i := 0; i < nSess; i++ {
 			r := c.R.Fork()
 			kind := uint64(pick(r, []int{0, 0, 0, 1, 1, 2, 3, 4, 4, 5}))
@@ -122,14 +127,14 @@ func init() {
 			if len(roots) == 0 {
 				c.Count("roots:none")
 			}
-			if ol := obs.(VL); len(finished) < 40 && len(ol[3].(VB)) > 0 && len(ol[3].(VB)) < 1500 && string(ol[2].(VL)[0].(VT)) == "nil" {
+			if ol := obs.(VL); len(finished) < 60*c.Scale && r.Chance(40) && len(ol[3].(VB)) > 0 && len(ol[3].(VB)) < 1500 && string(ol[2].(VL)[0].(VT)) == "nil" {
 				finished = append(finished, []byte(ol[3].(VB)))
 				finishedOpts = append(finishedOpts, o)
 			}
 		}
 
 		// ---- 2. car filter
-		nFlt := 10 * c.Scale
+		nFlt := 25 * c.Scale
 		for i := 0; i < nFlt; i++ {
 			r := c.R.Fork()
 			blks := genBlocks(r, 1+r.Intn(7), genOpts{identity: true, maxData: 200})
@@ -174,7 +179,7 @@ func init() {
 		}
 
 		// ---- 3. car create
-		nCr := 6 * c.Scale
+		nCr := 10 * c.Scale
 		for i := 0; i < nCr; i++ {
 			r := c.R.Fork()
 			dir, err := os.MkdirTemp(c.Work, "cr")
